@@ -849,7 +849,7 @@ def directed_core():
 
 def generate(rng, tier):
     cases = directed_core()
-    nround = 250 if tier == "quick" else 2600
+    nround = 250 if tier == "quick" else 2200
     want = nround
     tries = 0
     # the four corner-type combinations, with fractional subregion corners where the cell allows
@@ -884,7 +884,7 @@ def generate(rng, tier):
             cases.append(rc)
             want -= 1
     # files written by this module: current layout (well-formed and malformed) and legacy layout
-    nfor = 80 if tier == "quick" else 1000
+    nfor = 80 if tier == "quick" else 800
     k = 0
     tries = 0
     while k < nfor and tries < 20 * nfor:
@@ -897,7 +897,7 @@ def generate(rng, tier):
         rc["defect"] = None if rng.random() < 0.4 else rng.choice(DEFECTS)
         cases.append(rc)
         k += 1
-    nleg = 60 if tier == "quick" else 700
+    nleg = 60 if tier == "quick" else 600
     for _ in range(nleg):
         cases.append(gen_legacy(rng, tier))
     return cases
